@@ -615,7 +615,9 @@ pub fn build(tier: Tier) -> CheckDef {
         level: "model_checking",
         rule: "complete enumeration of small version models (every shape of needed files/aux and definitions/names up to the bound, index assignments, record layouts incl. non-contiguous and interleaved, separate string tables, section orders) built by the reference builder; every symbol index 0..n+2 is queried for its requirement and definition through three access paths and compared with the model's ground truth (file, name, hash, flags, ordered names, hidden bit). non-trivial = model for which at least one record is returned".into(),
         assumptions: vec!["record layouts are forward-linked (next/aux offsets are unsigned)".into()],
-        spaces: vec![Box::new(Models { maxf: f, maxa: a, maxd: d }), Box::new(Big), Box::new(VersymDomain), Box::new(Padded), Box::new(Displaced), Box::new(Sparse)],
+        spaces: vec![Box::new(Models { maxf: f, maxa: a, maxd: d }), Box::new(Big), Box::new(VersymDomain), Box::new(Padded), Box::new(Displaced), Box::new(Sparse),
+            // symbol versions of the tiny-full objects do not depend on the platform the header names
+            Box::new(super::c02::Platforms { sk: crate::skeleton::tiny_skeletons().into_iter().filter(|s| s.name.ends_with("linker-order")).collect() })],
         abort_is_violation: false,
         hang_is_violation: true,
         exhaustive: true,
